@@ -70,11 +70,20 @@ structure TypeDef where
   deprecatedValues : List String := []   -- enum values with a `DeprecationReason`
   deriving Repr, DecidableEq, Inhabited
 
+/-- A directive definition: a name and arguments. Directives carry no required features, and
+    `schema.New` has no feature rule for their argument types (directive.go:64-76 only checks names,
+    self-reference and locations; input_value_definition.go that the type is an input type). -/
+structure DirectiveDef where
+  name : String
+  args : List Arg
+  deriving Repr, DecidableEq, Inhabited
+
 structure Schema where
   types : List TypeDef
   query : String
   mutation : Option String
   subscription : Option String
+  directives : List DirectiveDef := []     -- Go: map keyed by name (incl. skip / include)
   deriving Repr, DecidableEq, Inhabited
 
 /-- The feature set of a request. -/
@@ -224,18 +233,26 @@ def Accepted (S : Schema) : Bool :=
    | some m => S.kindOf m == some .object) &&
   (match S.subscription with
    | none => true
-   | some m => S.kindOf m == some .object)
+   | some m => S.kindOf m == some .object) &&
+  (decide ((S.directives.map (·.name)).Nodup) &&
+   S.directives.all (fun d =>
+     decide ((d.args.map (·.name)).Nodup) && d.args.all (fun a => wfRef a.ty && S.isInputRef a.ty)))
 
-/-- Domain of the property: the root operation types carry no required features (a gated root type
-    would have to be deleted by `erase`, leaving no schema at all). -/
-def RootsUngated (S : Schema) : Bool :=
-  S.reqOf S.query == [] &&
-  (match S.mutation with
-   | none => true
-   | some m => S.reqOf m == []) &&
-  (match S.subscription with
-   | none => true
-   | some m => S.reqOf m == [])
+/-- Domain of the property, second part (open findings F-10g / F-13g): every directive argument's type
+    is visible to the request. `schema.New` does not enforce anything of the kind; for field arguments
+    the corresponding statement is a consequence of `Accepted` (`fieldOk`). -/
+def DirArgsVisible (S : Schema) (F : Feats) : Bool :=
+  S.directives.all (fun d => d.args.all (fun a => S.visible F a.ty.base))
+
+/-- The feature-independent form: no directive argument type carries required features. -/
+def DirArgsUngated (S : Schema) : Bool :=
+  S.directives.all (fun d => d.args.all (fun a => S.reqOf a.ty.base == []))
+
+/-- Domain of the property: the *query* root type carries no required features (a gated query root
+    would have to be deleted by `erase`, leaving no schema at all — `schema.New` insists on a query
+    type). Gated mutation / subscription root types are inside the domain: after fix 04 the code treats
+    them as absent, which is what `erase` does. -/
+def RootsUngated (S : Schema) : Bool := S.reqOf S.query == []
 
 /-! ## Physical erasure -/
 
@@ -251,7 +268,9 @@ def erase (S : Schema) (F : Feats) : Schema :=
   { S with
     types := (S.types.filter (fun t => reqOk F t.req)).map (eraseType S F)
     mutation := S.mutation.filter (S.visible F)
-    subscription := S.subscription.filter (S.visible F) }
+    subscription := S.subscription.filter (S.visible F)
+    -- an argument whose type is deleted is deleted with it
+    directives := S.directives.map (fun d => { d with args := d.args.filter (fun a => S.visible F a.ty.base) }) }
 
 /-! ## The accessors the Go code uses, each with the feature test it applies (or does not apply) -/
 
@@ -414,6 +433,15 @@ def fragApplies (S : Schema) (objT fragT : String) : Bool :=
     else false
   | none => false
 
+/-- `__schema { directives { name args } }` (introspection.go:105-122, 404-411): every directive with
+    every argument — NO feature test on the argument types. -/
+def directivesListing (S : Schema) : List DirectiveDef := S.directives
+
+/-- `s.Directives()[name].Arguments` as consulted by the validator (type_info.go:81-97,
+    validate_arguments.go:15-18): no feature test either. -/
+def directiveArgs (S : Schema) (dn : String) : Option (List Arg) :=
+  (S.directives.find? (fun d => d.name == dn)).map (·.args)
+
 /-- Everything a request with features `F` can ask the schema, in one record. Functions taking a
     type *name typed by the client* are total over strings; functions taking a type the code holds a
     *pointer* to take the name of that type. -/
@@ -435,11 +463,15 @@ structure View where
   resolveCandidates : String → List String
   fragApplies : String → String → Bool
   lookupRaw : String → Option Kind
+  directivesListing : List DirectiveDef
+  directiveArgs : String → Option (List Arg)
 
 def view (S : Schema) (F : Feats) : View :=
   { queryType := S.query
-    mutationType := S.mutation
-    subscriptionType := S.subscription
+    -- after fix 04: `MutationType()` / `SubscriptionType()` are used only when
+    -- `RequiredFeatures.IsSubsetOf(features)` (type_info.go, executor.go, introspection.go)
+    mutationType := S.mutation.filter (S.visible F)
+    subscriptionType := S.subscription.filter (S.visible F)
     lookupF := lookupF S F
     typeByName := typeByName S F
     typesListing := typesListing S F
@@ -453,7 +485,13 @@ def view (S : Schema) (F : Feats) : View :=
     spreadTypes := spreadTypes S F
     resolveCandidates := resolveCandidates S F
     fragApplies := fragApplies S
-    lookupRaw := lookupRaw S }
+    lookupRaw := lookupRaw S
+    directivesListing := directivesListing S
+    directiveArgs := directiveArgs S }
+
+/-- The root types as consulted before fix 04 (no feature test) — kept for the negation witness. -/
+def viewRootsUnfixed (S : Schema) (F : Feats) : View :=
+  { view S F with mutationType := S.mutation, subscriptionType := S.subscription }
 
 /-- `validateSpread` over a view. -/
 def View.spreadPossible (v : View) (fragT parentT : String) : Bool :=
